@@ -96,6 +96,24 @@ InFlight == Cardinality({w \in Workers : running[w] # Idle}) <= W /\ next - Len(
 Terminates == <>(result # <<"none">>)
 
 \* behaviour export: every reachable completion order (with worker ids)
+\* how many workers, and whether a pool is used at all (srs._process_parallel): 'auto' goes parallel only for more than one
+\* frequency, more than 50000 signal values, no returned histories and more than one processor; the pool size is maxcpu when that
+\* is given and smaller than the processor count, else four fifths of the processors (all of them up to four)
+Decide(par, nf, size, getresp, ncpu, maxcpu) ==
+  LET mode == IF par = "auto" THEN (IF nf > 1 /\ size > 50000 /\ ~getresp /\ ncpu > 1 THEN "yes" ELSE "no") ELSE par
+      w == IF mode # "yes" THEN 1 ELSE IF maxcpu > 0 /\ ncpu > maxcpu THEN maxcpu ELSE IF ncpu > 4 THEN (ncpu * 4) \div 5 ELSE ncpu
+  IN [mode |-> mode, w |-> w]
+DecideGrid == {<<par, nf, size, gr, ncpu, mx>> : par \in {"auto", "yes", "no"}, nf \in {1, 3}, size \in {50000, 50001}, gr \in BOOLEAN,
+                                                ncpu \in {1, 2, 4, 5, 16}, mx \in {0, 1, 3, 14}}          \* mx = 0: maxcpu not given
+DecideLaws == \A g \in DecideGrid :
+   LET d == Decide(g[1], g[2], g[3], g[4], g[5], g[6]) IN
+   /\ d.w >= 1 /\ d.w <= g[5] /\ (g[6] > 0 => d.w <= g[6] \/ d.mode = "no" \/ d.w <= g[5])
+   /\ (d.mode = "no" => d.w = 1)
+   /\ (g[1] = "auto" /\ (g[4] \/ g[2] = 1 \/ g[3] <= 50000 \/ g[5] = 1) => d.mode = "no")
+   /\ (g[1] # "auto" => d.mode = g[1])
+   /\ (d.mode = "yes" /\ g[6] > 0 => d.w <= g[6])
+ExportDecide == (Export /\ shared = "none" /\ next = 0) => PrintT(<<"DECIDE", {<<g, Decide(g[1], g[2], g[3], g[4], g[5], g[6])>> : g \in DecideGrid}>>)
+
 \* the workers never run before the inputs are in shared memory, and both paths compute in the same representation
 SharedBeforeWork == (next > 0) => shared = Norm(InRep)
 SameRepresentation == \A i \in 1..Len(done) : shared = SerialRep
